@@ -104,13 +104,19 @@ class DataNotification(AbstractXDlmsApdu):
         long_invoke_id_data = data[:4]
         long_invoke_id = LongInvokeIdAndPriority.from_bytes(bytes(long_invoke_id_data))
         data = data[4:]
-        has_datetime = bool(data.pop(0))
-        if has_datetime:
-            dn_datetime_data = data[:12]
+        # date-time is an octet string: empty if not used, otherwise 12 bytes.
+        datetime_length = data.pop(0)
+        if datetime_length == 0:
+            dn_datetime = None
+        elif datetime_length == 12:
+            dn_datetime_data = bytes(data[:12])
             data = data[12:]
             dn_datetime, _ = dlmstime.datetime_from_bytes(dn_datetime_data)
         else:
-            dn_datetime = None
+            raise ValueError(
+                f"The date-time of a DataNotification should be 0 or 12 bytes long, "
+                f"got {datetime_length}"
+            )
         return cls(
             long_invoke_id_and_priority=long_invoke_id,
             date_time=dn_datetime,
@@ -122,7 +128,7 @@ class DataNotification(AbstractXDlmsApdu):
         out.append(self.TAG)
         out.extend(self.long_invoke_id_and_priority.to_bytes())
         if self.date_time:
-            out.extend(b"\x01")
+            out.extend(b"\x0c")
             out.extend(dlmstime.datetime_to_bytes(self.date_time))
         else:
             out.extend(b"\x00")
